@@ -13,7 +13,7 @@ def work(patch):
         subprocess.run(['bash','-c',f'cp -r /repo/. {t} && rm -rf {t}/.git'],check=True)
         r=subprocess.run(['git','apply','--unsafe-paths','--directory='+t, patch],cwd=t,capture_output=True,text=True)
         if r.returncode!=0: return patch,'APPLY-FAILED '+r.stderr[:200]
-        r=subprocess.run([V+'/bin/gochk','-repo',t,'-verif',V,'-prop','all','-no-evidence'],capture_output=True,text=True,env=env)
+        r=subprocess.run([os.environ.get('GOCHK', V+'/bin/gochk'),'-repo',t,'-verif',V,'-prop','all','-no-evidence'],capture_output=True,text=True,env=env)
         dets=[]; cur=None
         for l in r.stdout.splitlines():
             m=re.match(r'== (C\d\d):',l)
